@@ -14,9 +14,14 @@ import (
 // the bastion endpoint's parser to the proof and checkpoint that were written.
 func VerifWriterRoundTrip() {
 	b := &bastionClient{httpClient: &http.Client{}, url: "https://bastion.example/add-checkpoint"}
-	k := rt.Choose(rt.Param("k", 2) + 1)
+	kmin := rt.Param("kmin", 0)
+	k := kmin + rt.Choose(rt.Param("k", 2)-kmin+1)
 	var proof [][]byte
 	for i := 0; i < k; i++ {
+		if i > 0 && rt.Param("samehash", 0) == 1 {
+			proof = append(proof, proof[0]) // long-proof run: one arbitrary hash repeated
+			continue
+		}
 		h := rt.Bytes("h")
 		rt.Assume(string(h) != "" && rt.LenLE(string(h), 64))
 		proof = append(proof, h)
